@@ -61,9 +61,19 @@ _REAL_NOW = _zc_cache.current_time_millis
 _CLOCK_MODULES = (_zc_cache, _zc_dns, _zc_engine, _zc_rm, _zc_browser)
 
 
+_TICKING = [None]   # during a purge op: number of clock readings so far
+
+
 def _now():
+    """the injected clock.  During a purge op it advances by 1 ms per reading (now, now+1, now+2, ...): code that reads the clock once per
+    event cannot tell, code that mixes two readings of one event (seeded defect C04-w3-seed3) is handed two different instants"""
     v = _CLOCK[0]
-    return _REAL_NOW() if v is None else v
+    if v is None:
+        return _REAL_NOW()
+    if _TICKING[0] is not None:
+        v = v + _TICKING[0]
+        _TICKING[0] += 1
+    return v
 
 
 def install_clock():
@@ -496,7 +506,11 @@ class World:
                     self.reacts = []
             elif k == "X":
                 _CLOCK[0] = float(op[1])
-                _zc_engine.AsyncEngine._async_cache_cleanup(self.engine)
+                _TICKING[0] = 0
+                try:
+                    _zc_engine.AsyncEngine._async_cache_cleanup(self.engine)
+                finally:
+                    _TICKING[0] = None
             elif k == "LA":
                 self.rm.async_add_listener(self.listener(op[1]), None)
             elif k == "LR":
